@@ -160,7 +160,8 @@ prop('C14',
      units=['order', 'dtree'],
      assumptions=[A_VERUS, A_EXTRACT,
                   'A-bitset / A-varset: BitSet insert/contains behave as a set of usize; the VarSet wrappers new/union/minus/intersect_varset (one-line functions over BitSet iterators) compute the set operation they name',
-                  'A-clone: the derived Clone of DTree is a structural copy', A_TERM],
+                  'A-clone: the derived Clone of DTree is a structural copy; Vec<Literal>::clone returns an equal vector',
+                  'A-order-iter / A-cnf-stub: in unit dtree VarOrder::in_order_iter() is a stub yielding SOME sequence of labels (nothing assumed) and Cnf is the opaque stub exposing its clause list', A_TERM],
      replay={'order': 'order', 'dtree': 'dtree', '*': 'order'},
      bounded_extra=['vtree'],
      explanation='first sentence of the property, for the orders VarOrder itself builds: VarOrder::new(order) for ANY permutation `order` yields mutually inverse position/label maps (wf) with '
@@ -169,7 +170,7 @@ prop('C14',
      not_covered=[
          'VarOrder::linear_order ((0..n).map(..).collect(): iterator chain; it only calls VarOrder::new, which is proved) [+ bounded check `order`]',
          'min-fill (petgraph) and FORCE (f64, sort_by, partial_cmp) order heuristics [bounded check `order` only: the result is a bijection]',
-         'DTree::from_cnf itself (iterator map/collect/partition around the proved helpers) [bounded check `dtree` only], cutwidth', 'VTree::from_dtree (cutset.iter().collect()) [bounded check `dtree` only], VTreeManager [bounded check `vtree` only: dense labels, <= 6 leaves; it found the variable-count defect fixed in ad19bb4] (in-order indices, lca via segment tree, prime test, variable count)',
+         'DTree::from_cnf is under contract -- the leaves are exactly the clauses of the formula (every clause occurs at the leaves as often as in the formula), vars = clause variables at a leaf / union of the children at a node everywhere, cutsets = shared by the children and not cut above, for ANY sequence of labels as elimination order -- with three declared rewrites that replace std iterator adaptors by their definition over the same elements (R-map-collect, R-partition, R-for-while over the stub of in_order_iter: A-order-iter); it requires at least one clause (for the empty formula the real function panics in `balanced`: there is no dtree without leaves) [+ bounded check `dtree`]; cutwidth is not under contract', 'VTree::from_dtree (cutset.iter().collect()) [bounded check `dtree` only], VTreeManager [bounded check `vtree` only: dense labels, <= 6 leaves; it found the variable-count defect fixed in ad19bb4] (in-order indices, lca via segment tree, prime test, variable count)',
      ])
 
 prop('C05',
@@ -181,7 +182,7 @@ prop('C05',
      not_covered=[
          'compile_cnf (BDD builder) is under contract -- empty list: true; an empty clause: false; otherwise the diagram of the conjunction of the clauses, by invariants over the real per-clause and per-literal loops and the proved collapse_clauses -- with four declared rewrites: the empty-clause test and the clause-sorting prologue are the stubs of A-cnf-stub (the comparator heuristic is NOT verified; the proof holds for any rearrangement of the clauses), and two loop headers are written with `.iter()` [+ bounded check `compile`]',
          'compile_cnf_with_assignments is under contract -- the result is ordered, canonical and denotes the formula with the assigned variables overridden by the partial model (cnf_holds(cls, over(env, m)), i.e. the formula conditioned on the assignment), for every heap pop order -- with the rewrites and stubs of A-heap; that it is the SAME POINTER as condition_model(compile_cnf(..)) follows from the canonicity theorem (unit canonthm) given equal functions, and is additionally observed by the bounded check `compile`',
-         'BottomUpPlan::from_dtree is under contract (unit plan) -- the plan means the conjunction of the leaf clauses of the dtree and mentions only their variables -- with ONE declared rewrite (R-fold: `clause.iter().skip(1).fold(first_lit, |acc, i| BODY)` replaced by the definition of fold, an indexed while over clause[1..] with the real closure text as body); that the leaves of DTree::from_cnf are the clauses of the CNF is NOT proved (C14: iterator code) [bounded checks `compile`, `dtree`]',
+         'BottomUpPlan::from_dtree is under contract (unit plan) -- the plan means the conjunction of the leaf clauses of the dtree and mentions only their variables -- with ONE declared rewrite (R-fold: `clause.iter().skip(1).fold(first_lit, |acc, i| BODY)` replaced by the definition of fold, an indexed while over clause[1..] with the real closure text as body); that the leaves of DTree::from_cnf are the clauses of the CNF is proved under C14 (unit dtree) [+ bounded checks `compile`, `dtree`]',
          'everything SDD (C03 is not applicable): compile_* under the SDD builder and any vtree [bounded check `compile` only: all vtrees over 3 variables, four over 4]',
      ])
 
